@@ -128,7 +128,9 @@ func (f *Fake) call(name string) {
 
 func (f *Fake) jitter() {
 	if f.Jitter > 0 {
+		f.W.jmu.Lock()
 		n := f.W.jit.Intn(f.Jitter + 1)
+		f.W.jmu.Unlock()
 		if n > 0 {
 			time.Sleep(time.Duration(n) * 100 * time.Microsecond)
 		}
